@@ -335,6 +335,14 @@ def _comprehension_item(term: str):
     return item, conds
 
 
+def _caching_decorator(fi) -> bool:
+    for d in getattr(fi.node, 'decorator_list', []):
+        t = ast.unparse(d).split('(')[0].split('.')[-1]
+        if t in ('lru_cache', 'cache', 'cached_property'):
+            return True
+    return False
+
+
 def _literal_truth(term: str) -> Optional[bool]:
     """truth value of a term that is a literal (``0``, ``''``, ``b''``, ``()``, ``[]``, ``3``, ``not 0``), else None"""
     t = term.strip()
@@ -741,6 +749,8 @@ class SymClient(Client):
             return [s_a]
         if isinstance(r, FuncRef):
             fi = self.repo.func(r.module, r.qualname)
+            if _caching_decorator(fi):
+                return [s]       # functools.lru_cache / cache: what the call returns is not what one run of the body builds
             if self.inline(fi) and self.depth < 6 and not _is_generator(fi.node):
                 key = '$ret:%d:%d' % (getattr(call, 'lineno', 0), getattr(call, 'col_offset', 0))
                 return [o_.set(key, o_.ret) if o_.ret is not None else o_ for o_ in self._inline(fi, call, s)]
